@@ -254,6 +254,28 @@ type Row struct {
 func A(ms ...LitM) []LitM        { return ms }
 func Vals(vs ...string) []string { return vs }
 
+// BoolUnder decides a non-constant boolean value by a set of assumed literals: "return a && b"
+// is the same decision as "if a && b { return true }; return false".
+func (e *Eng) BoolUnder(fn *ssa.Function, val ssa.Value, assume []LitM) (bool, bool) {
+	if _, isK := val.(*ssa.Const); isK {
+		return false, false
+	}
+	b, ok := val.Type().Underlying().(*types.Basic)
+	if !ok || b.Info()&types.IsBoolean == 0 {
+		return false, false
+	}
+	l := e.CondLit(fn, val)
+	for _, a := range assume {
+		if a.F(Lit{Atom: l.Atom, Alt: l.Alt, Pos: true}) {
+			return l.Pos, true
+		}
+		if a.F(Lit{Atom: l.Atom, Alt: l.Alt, Pos: false}) {
+			return !l.Pos, true
+		}
+	}
+	return false, false
+}
+
 // Table evaluates a decision table on fn.  Every atom used in an assumption
 // must be tested somewhere in fn.
 func (o *Ob) Table(fn *ssa.Function, key string, rows []Row) {
@@ -291,12 +313,27 @@ func (o *Ob) Table(fn *ssa.Function, key string, rows []Row) {
 				if allowed == nil {
 					continue
 				}
-				vs := e.ValStrs(fn, e.RetVals(r, ret, i))
+				vals := e.RetVals(r, ret, i)
+				vs := e.ValStrs(fn, vals)
 				shown = append(shown, strings.Join(vs, "|"))
-				for _, v := range vs {
+				seenV := map[string]bool{}
+				for _, val := range vals {
+					v := e.X(fn, val)
+					if seenV[v] {
+						continue
+					}
+					seenV[v] = true
+					// a returned condition is decided by the row's assumptions like a branch on it would be
+					if bv, ok := e.BoolUnder(fn, val, row.Assume); ok {
+						v = "false"
+						if bv {
+							v = "true"
+						}
+					}
+					vi := e.XI(fn, val)
 					ok := false
 					for _, a := range allowed {
-						if a == v || strings.HasPrefix(a, "~") && regexpMatch(a[1:], v) {
+						if a == v || a == vi || strings.HasPrefix(a, "~") && (regexpMatch(a[1:], v) || regexpMatch(a[1:], vi)) {
 							ok = true
 						}
 					}
